@@ -204,7 +204,8 @@ func NondetInt(tag string) int                   { return int(NondetInt64(tag)) 
 // NondetRange: an input the model left unconstrained is absent from the scenario; any value of the range
 // will do, the one nearest to zero is taken.
 func NondetRange(tag string, lo, hi int64) int64 {
-	if _, ok := rawVal(tag); !ok {
+	v, ok := rawVal(tag)
+	if !ok {
 		if lo > 0 {
 			return lo
 		}
@@ -213,7 +214,7 @@ func NondetRange(tag string, lo, hi int64) int64 {
 		}
 		return 0
 	}
-	return NondetInt64(tag)
+	return toBig(v).Int64()
 }
 func NondetUint64(tag string) uint64 {
 	v, ok := rawVal(tag)
